@@ -1,6 +1,9 @@
-(* The file store differs from the memory store in one observable way: Walk visits the bucket
-   directory with filepath.Walk, i.e. per-directory lexical order with directory entries, instead
-   of bytewise name order.  handle_fs = handle with that walk order in RList. *)
+(* The file store's Walk visits the bucket directory tree; the entries of a directory are visited in
+   the order of the object names they stand for (a directory "foo" sorts as "foo/"), so the names
+   come in bytewise order, as in the memory store, preceded by the directories that lead to them.
+   handle_fs = handle with that walk (directory entries included) in RList.
+   [segs_cmp] is the order filepath.Walk would give (per-directory lexical order); it is kept to
+   state what the walk used to do (GCS-2). *)
 From Coq Require Import List NArith ZArith Bool.
 Import ListNotations.
 From Emu.Common Require Import Bytes Str.
@@ -21,12 +24,23 @@ Definition segs (n : str) : list bytes := split n s_sep.
 Fixpoint sinsert (n : str) (l : list str) : list str :=
   match l with
   | [] => [n]
-  | m :: r => match segs_cmp (segs n) (segs m) with
+  | m :: r => match lex_cmp n m with
               | Gt => m :: sinsert n r
               | _ => n :: l
               end
   end.
 Definition fs_sort (names : list str) : list str := fold_right sinsert [] names.
+
+(* the order of filepath.Walk (what the walk did before it was repaired) *)
+Fixpoint sinsert_walk (n : str) (l : list str) : list str :=
+  match l with
+  | [] => [n]
+  | m :: r => match segs_cmp (segs n) (segs m) with
+              | Gt => m :: sinsert_walk n r
+              | _ => n :: l
+              end
+  end.
+Definition fs_sort_walk (names : list str) : list str := fold_right sinsert_walk [] names.
 
 Fixpoint join_segs (l : list bytes) : str :=
   match l with
